@@ -25,11 +25,24 @@
      TensorAccess::from_memory_order) fire exactly for a SOURCE that breaks the clause
      (C02_contract_violation_panics_rename, .._memory_order), and no constructed view ever reaches them
      (C02_layout_total);
-   - a 2-D view through MatrixRefTensor and TensorRefMatrix is its rename (C02_matrix_trip_is_rename). *)
-From Coq Require Import List ZArith NArith Bool Arith Permutation.
+   - a 2-D view through MatrixRefTensor and TensorRefMatrix is its rename (C02_matrix_trip_is_rename).
+   Second extension wave (Proofs/C02Spec.v): the shape rules and the select / expansion / stack index
+   mappings now have SHORT specifications independent of the transcribed loops, proved equal to
+   them over any source view (C02_clip_spec, C02_shape_range_mask_rename, C02_shape_index,
+   C02_mapping_index, C02_mapping_expand, C02_stack_spec, C02_shape_chain, C02_chain_beyond_absent):
+   select = pointwise "fixed coordinate, else the supplied coordinate number #unfixed-before-d";
+   expansion shape = "before source dimension i come the extras requested at position i, length 1",
+   expansion index = "the index is the source index with a 0 inserted at every extra dimension"
+   (compute_expansion_indexes_* returns j only if idx = insert_zeros j; with C02_present_iff this
+   pins the mapping); stack = insert at `along` / delete coordinate `along`; chain = first
+   source's names and lengths, the SUM at `along`.  And every constructor has its "Panic iff
+   <documented misuse>" / "Err payload iff" theorem in the code's check order
+   (the C02_*_ctor_panics_iff theorems, C02_access_ctor_err_iff, C02_named_ranges_err_iff,
+   C02_ranged_ctor_panics_iff). *)
+From Coq Require Import List ZArith NArith Bool Arith Permutation Lia.
 From EasyML Require Import Base.Sx Model.Shape Model.Views Model.ViewsMut Model.ViewsConv Proofs.ShapeP
   Proofs.C01P Proofs.C02Lemmas Proofs.C02P Proofs.C02Q Proofs.C02Inj Proofs.C02W Proofs.C02Lin
-  Proofs.C02Mut Proofs.C02Conv Proofs.C02Lay.
+  Proofs.C02Mut Proofs.C02Conv Proofs.C02Lay Proofs.C02Spec.
 Import ListNotations.
 Open Scope N_scope.
 
@@ -274,6 +287,191 @@ Theorem C02_matrix_trip_is_rename : forall c r0 k0 rows cols n0 n1,
        end).
 Proof. exact matrix_trip_is_rename. Qed.
 
+(* ================= second extension wave: specifications of shapes, mappings, misuse ========= *)
+(* IndexRange::clip keeps index i exactly when i is in the range and start + i is in the dimension *)
+Theorem C02_clip_spec : forall r l, l <= usize_max ->
+  forall i, i < r_len (r_clip r l) <-> i < r_len r /\ r_start r + i < l.
+Proof. exact clip_spec. Qed.
+
+(* shape rules of range / mask / rename: names and lengths pointwise *)
+Theorem C02_shape_range_mask_rename : forall c,
+  (forall rs, length rs = length (c_shape c) ->
+     names_of (c_shape (CRange c rs)) = names_of (c_shape c) /\
+     lens_of (c_shape (CRange c rs)) = map r_len rs) /\
+  (forall ms, length ms = length (c_shape c) ->
+     names_of (c_shape (CMask c ms)) = names_of (c_shape c) /\
+     lens_of (c_shape (CMask c ms)) = zipwith (fun d m => snd d - r_len m) (c_shape c) ms) /\
+  (forall ns, length ns = length (c_shape c) ->
+     names_of (c_shape (CRename c ns)) = ns /\
+     lens_of (c_shape (CRename c ns)) = lens_of (c_shape c)).
+Proof. exact range_mask_rename_shape_spec. Qed.
+
+(* selection: the shape keeps exactly the unfixed dimensions, in order *)
+Theorem C02_shape_index : forall c pr, length pr = length (c_shape c) ->
+  c_shape (CIndex c pr) = map fst (filter (fun p => is_none (snd p)) (combine (c_shape c) pr)).
+Proof. exact (fun c pr => unprovided_spec (c_shape c) pr). Qed.
+
+(* selection: coordinate d of the source index is the fixed index of dimension d, or the supplied
+   coordinate whose number is the count of unfixed dimensions before d (the compute_select_indexes_D_I helpers) *)
+Theorem C02_mapping_index : forall c pr idx j, select_idx pr idx = Some j ->
+  c_get (CIndex c pr) idx = c_get c j /\ length j = length pr /\
+  forall d, (d < length pr)%nat -> nth d j 0 = select_spec pr idx d.
+Proof. exact mapping_index. Qed.
+
+(* expansion: the extras requested at position i sit before source dimension i (after the last
+   one for i = D), each of length 1; compute_expansion_indexes_* yields the source index j only
+   for the index "j with a 0 inserted at every extra dimension" (and None otherwise: absent) *)
+Theorem C02_mapping_expand : forall c ex idx, cwf (CExpand c ex) ->
+  length idx = (length (c_shape c) + length ex)%nat ->
+  c_shape (CExpand c ex) = spec_expand_shape (c_shape c) 0 ex /\
+  match expand_idx idx 0 ex with
+  | Some j => c_get (CExpand c ex) idx = c_get c j /\ idx = insert_zeros j 0 ex /\
+              length j = length (c_shape c)
+  | None => c_get (CExpand c ex) idx = None
+  end.
+Proof. exact mapping_expand. Qed.
+
+(* ... and in terms of the RAW argument of TensorExpansion::from: the extras requested at position i
+   appear before source dimension i IN THE ORDER THE CALLER GAVE THEM (the sort by position is
+   stable) - whatever order the pairs were listed in *)
+Theorem C02_expand_ctor_shape : forall c es c', expand_ctor c es = Ok c' ->
+  c_shape c' = spec_expand_shape (c_shape c) 0 es.
+Proof. exact expand_ctor_shape_spec. Qed.
+
+(* stack: the new dimension (name, number of sources) is inserted at position `along`; the
+   coordinate at `along` (C02_mapping_stack) is deleted from the index given to the source *)
+Theorem C02_stack_spec : forall cs along n idx, (along <= length (first_shape cs))%nat ->
+  c_shape (CStack cs along n) =
+    firstn along (first_shape cs) ++ (n, N.of_nat (length cs)) :: skipn along (first_shape cs) /\
+  remove_at 0 along idx = firstn along idx ++ skipn (S along) idx.
+Proof. exact stack_spec. Qed.
+
+(* chain: names and every other length are the first source's, the chained dimension has the SUM
+   of the sources' lengths; at or beyond the sum nothing is present (below it: C02_mapping_chain) *)
+Theorem C02_shape_chain : forall cs along, (along < length (first_shape cs))%nat ->
+  let lens := map (fun c0 => len_at (c_shape c0) along) cs in
+  names_of (c_shape (CChain cs along)) = names_of (first_shape cs) /\
+  length (c_shape (CChain cs along)) = length (first_shape cs) /\
+  forall d, nth d (lens_of (c_shape (CChain cs along))) 0 =
+            if Nat.eqb d along then sum lens else nth d (lens_of (first_shape cs)) 0.
+Proof. exact chain_shape_spec. Qed.
+
+Theorem C02_chain_beyond_absent : forall cs along idx,
+  sum (map (fun c0 => len_at (c_shape c0) along) cs) <= nth along idx 0 ->
+  c_get (CChain cs along) idx = None.
+Proof. exact chain_beyond_absent. Qed.
+
+(* ---- constructor misuse: "Panic iff <documented condition>", disjuncts in the code's check
+   order; never an Err; the stored fields on success ---- *)
+(* TensorIndex::from: more indexes than dimensions, a repeated name, or an index that is not
+   (a dimension of the source, inside its length) *)
+Theorem C02_index_ctor_panics_iff : forall c ps,
+  (index_ctor c ps = Panic <->
+     (length (c_shape c) < length ps)%nat \/ ~ NoDup (map fst ps) \/
+     Exists (fun p => ~ selectable (c_shape c) p) ps) /\
+  (forall e, index_ctor c ps <> Err e) /\
+  (forall c', index_ctor c ps = Ok c' -> exists pr, c' = CIndex c pr /\
+     place_provided (c_shape c) ps (repeat None (length (c_shape c))) = Some pr).
+Proof. exact index_ctor_panics_iff. Qed.
+
+(* TensorExpansion::from: a repeated extra name, a position beyond D, or a name already in use *)
+Theorem C02_expand_ctor_panics_iff : forall c es,
+  (expand_ctor c es = Panic <->
+     ~ NoDup (map snd es) \/
+     Exists (fun e => (length (c_shape c) < fst e)%nat \/ In (snd e) (names_of (c_shape c))) es) /\
+  (forall e, expand_ctor c es <> Err e) /\
+  (forall c', expand_ctor c es = Ok c' -> c' = CExpand c (stable_sort es)).
+Proof. exact expand_ctor_panics_iff. Qed.
+
+Theorem C02_rename_ctor_panics_iff : forall c ns,
+  (rename_ctor c ns = Panic <-> length ns <> length (c_shape c) \/ ~ NoDup ns) /\
+  (forall e, rename_ctor c ns <> Err e) /\
+  (forall c', rename_ctor c ns = Ok c' -> c' = CRename c ns).
+Proof. exact rename_ctor_panics_iff. Qed.
+
+(* TensorReverse::from: a repeated name or a name that is not in the source's shape *)
+Theorem C02_reverse_ctor_panics_iff : forall c ns,
+  (reverse_ctor c ns = Panic <->
+     ~ NoDup ns \/ Exists (fun n => ~ In n (names_of (c_shape c))) ns) /\
+  (forall e, reverse_ctor c ns <> Err e) /\
+  (forall c', reverse_ctor c ns = Ok c' ->
+     c' = CReverse c (map (fun d => existsb (Nat.eqb (fst d)) ns) (c_shape c))).
+Proof. exact reverse_ctor_panics_iff. Qed.
+
+(* TensorAccess / TensorTranspose ::try_from: never a panic; Err (actual shape, requested names)
+   exactly when the requested names are not a permutation of the shape's names *)
+Theorem C02_access_ctor_err_iff : forall c ns,
+  NoDup (names_of (c_shape c)) -> length ns = length (c_shape c) ->
+  access_tbl c ns <> Panic /\
+  (access_tbl c ns = Err (e_access (c_shape c) ns) <-> ~ Permutation (names_of (c_shape c)) ns) /\
+  (forall e, access_tbl c ns = Err e -> e = e_access (c_shape c) ns) /\
+  (forall tbl, access_tbl c ns = Ok tbl <-> dm_new (names_of (c_shape c)) ns = Some tbl).
+Proof. exact access_tbl_err_iff. Qed.
+
+(* TensorStack::from: no sources, position beyond D, name already in the shape, or a source whose
+   shape differs from the first source's *)
+Theorem C02_stack_ctor_panics_iff : forall cs pos n,
+  (stack_ctor cs pos n = Panic <->
+     cs = [] \/ (length (first_shape cs) < pos)%nat \/ In n (names_of (first_shape cs)) \/
+     Exists (fun c => c_shape c <> first_shape cs) cs) /\
+  (forall e, stack_ctor cs pos n <> Err e) /\
+  (forall c', stack_ctor cs pos n = Ok c' -> c' = CStack cs pos n).
+Proof. exact stack_ctor_panics_iff. Qed.
+
+(* TensorChain::from: no sources, 0-dimensional sources, the name is not in the first shape, a
+   source that is not `similar` (same names in order, same lengths except along the chained one),
+   or (since fix f29e87d of finding F16) a total length along the chained dimension beyond
+   usize::MAX; a constructed chain of >= 2 sources therefore has a usize total length *)
+Theorem C02_chain_ctor_panics_iff : forall cs n,
+  (chain_ctor cs n = Panic <->
+     cs = [] \/ first_shape cs = [] \/ ~ In n (names_of (first_shape cs)) \/
+     exists along, position_of (first_shape cs) n = Some along /\
+       (Exists (fun c => ~ similar along (c_shape c) (first_shape cs)) cs \/
+        ((1 < length cs)%nat /\
+         usize_max < sum (map (fun c => len_at (c_shape c) along) cs)))) /\
+  (forall e, chain_ctor cs n <> Err e) /\
+  (forall c', chain_ctor cs n = Ok c' ->
+     exists along, position_of (first_shape cs) n = Some along /\ c' = CChain cs along /\
+       ((1 < length cs)%nat -> sum (map (fun c => len_at (c_shape c) along) cs) <= usize_max)).
+Proof. exact chain_ctor_panics_iff. Qed.
+
+(* named ranges / masks: InvalidDimensions { provided, valid } exactly for a repeated or unknown name *)
+Theorem C02_named_ranges_err_iff : forall sh named,
+  from_named_to_all sh named <> Panic /\
+  ((exists e, from_named_to_all sh named = Err e) <->
+     ~ NoDup (map fst named) \/ Exists (fun p => ~ In (fst p) (names_of sh)) named) /\
+  (forall e, from_named_to_all sh named = Err e ->
+     e = e_irv_dims (e_dims (map fst named) (names_of sh))).
+Proof. exact named_ranges_err_iff. Qed.
+
+(* the eight range / mask constructors never panic (a wrong array length is a compile-time error) *)
+Theorem C02_ranged_ctor_panics_iff : forall clip_from c p,
+  clip_from = range_clip_from \/ clip_from = mask_clip_from ->
+  (ranged_ctor clip_from c p = Panic <->
+   match p with PAll _ rs => length rs <> length (c_shape c) | PNamed _ _ => False end).
+Proof. exact ranged_ctor_panics_iff. Qed.
+
+(* non-vacuity of the specification theorems: two extras at position 1 and one at 0 over a 2 x 3
+   leaf; a selection of the middle dimension; misuse that panics *)
+Example C02_nonvacuous_spec :
+  let leaf := CTensor 1 [(0%nat, 2); (1%nat, 3)] [3; 1] in
+  (exists c, expand_ctor leaf [(1%nat, 7%nat); (0%nat, 8%nat); (1%nat, 9%nat)] = Ok c /\ cwf c /\
+     c_shape c = [(8%nat, 1); (0%nat, 2); (7%nat, 1); (9%nat, 1); (1%nat, 3)] /\
+     insert_zeros [1; 2] 0 [(0%nat, 8%nat); (1%nat, 7%nat); (1%nat, 9%nat)] = [0; 1; 0; 0; 2] /\
+     c_get c [0; 1; 0; 0; 2] = Some (1, 5) /\ c_get c [0; 1; 1; 0; 2] = None) /\
+  select_spec [None; Some 4; None] [6; 7] 2 = 7 /\
+  index_ctor leaf [(1%nat, 3)] = Panic /\ ~ selectable [(0%nat, 2); (1%nat, 3)] (1%nat, 3) /\
+  chain_ctor [leaf; CTensor 2 [(0%nat, 2); (1%nat, 4)] [4; 1]] 0%nat = Panic.
+Proof.
+  cbv zeta. split; [|repeat split; try (vm_compute; reflexivity)].
+  - eexists. split; [vm_compute; reflexivity|]. split; [|repeat split; vm_compute; reflexivity].
+    cbn [cwf c_shape]. split; [split; [|reflexivity]; split; [|repeat constructor; vm_compute; reflexivity]|].
+    + repeat constructor; cbn; intuition discriminate.
+    + split; [cbn; lia|]. split; [repeat constructor; cbn; intuition discriminate|].
+      repeat constructor; cbn; intuition discriminate.
+  - intros [d [[<-|[<-|[]]] [E L]]]; cbn in *; try discriminate; lia.
+Qed.
+
 (* non-vacuity: reversal over a mask over a chain of a range and an expansion-of-a-selection, then
    transposed: constructible, usize, with a present index resolving into the second chained
    source and an absent one *)
@@ -354,3 +552,21 @@ Print Assumptions C02_layout_total.
 Print Assumptions C02_matrix_trip_is_rename.
 Print Assumptions C02_linear_layout_enumerated.
 Print Assumptions C02_transpose_layout_as_written_refuted.
+Print Assumptions C02_clip_spec.
+Print Assumptions C02_shape_range_mask_rename.
+Print Assumptions C02_shape_index.
+Print Assumptions C02_mapping_index.
+Print Assumptions C02_mapping_expand.
+Print Assumptions C02_expand_ctor_shape.
+Print Assumptions C02_stack_spec.
+Print Assumptions C02_shape_chain.
+Print Assumptions C02_chain_beyond_absent.
+Print Assumptions C02_index_ctor_panics_iff.
+Print Assumptions C02_expand_ctor_panics_iff.
+Print Assumptions C02_rename_ctor_panics_iff.
+Print Assumptions C02_reverse_ctor_panics_iff.
+Print Assumptions C02_access_ctor_err_iff.
+Print Assumptions C02_stack_ctor_panics_iff.
+Print Assumptions C02_chain_ctor_panics_iff.
+Print Assumptions C02_named_ranges_err_iff.
+Print Assumptions C02_ranged_ctor_panics_iff.
